@@ -35,6 +35,10 @@ def jobs(tier):
             js.append({'name': 'needed vs build 2 lines first=%s pre_out=%d' % (f, pl), 'harness': (H, 'h_hermetic'),
                        'params': {'nlines': 2, 'menu_name': 'small', 'fixed': [f], 'pre_out_len': pl, 'pre_temp_len': None,
                                   'mode_a': 'InMemoryBuild', 'mode_b': 'Build', 'clean_b': False, 'norewrite': True}})
+    for total in (8192, 16384):
+        for tr in (True, False):
+            js.append({'name': 'needed-build: fresh output of exactly %d bytes over a longer older one (trailing=%s)' % (total, tr),
+                       'harness': ('props.fsprops', 'h_exact_size'), 'params': {'total': total, 'mode': 'InMemoryBuild', 'trailing': tr}, 'max_steps': 8_000_000})
     from . import project
     js += project.jobs('C09', tier)
     return js
